@@ -162,17 +162,22 @@ Section Tables.
             match a2 with
             | Some x => Some x
             | None =>
-                let '(n0, g0) := if negb (has_fx l) && expr_eqb l r then (field oleqr p, l) else (OpNone, l) in
-                let '(n, g) :=
-                    if negb (pop_eqb (field ol0 p) OpNone) && is_value t 0 l then (field ol0 p, r)
-                    else if negb (pop_eqb (field ol1 p) OpNone) && is_value t 1 l then (field ol1 p, r)
-                    else if negb (pop_eqb (field or0 p) OpNone) && is_value t 0 r then (field or0 p, l)
-                    else if negb (pop_eqb (field or1 p) OpNone) && is_value t 1 r then (field or1 p, l)
-                    else (n0, g0) in
-                if pop_eqb n OpNone then None else
-                match make_unary n t g with
-                | Some e => Some (e, true)
+                (* newOp/arg: the l = r candidate is overridden by any of the four literal cases *)
+                let cand :=
+                    if negb (pop_eqb (field ol0 p) OpNone) && is_value t 0 l then Some (field ol0 p, r)
+                    else if negb (pop_eqb (field ol1 p) OpNone) && is_value t 1 l then Some (field ol1 p, r)
+                    else if negb (pop_eqb (field or0 p) OpNone) && is_value t 0 r then Some (field or0 p, l)
+                    else if negb (pop_eqb (field or1 p) OpNone) && is_value t 1 r then Some (field or1 p, l)
+                    else if negb (has_fx l) && expr_eqb l r then Some (field oleqr p, l)
+                    else None in
+                match cand with
                 | None => None
+                | Some (n, g) =>
+                    if pop_eqb n OpNone then None else
+                    match make_unary n t g with
+                    | Some e => Some (e, true)
+                    | None => None
+                    end
                 end
             end
         end
